@@ -7,7 +7,7 @@ from pyerr import canon_call
 
 PROP = 'C08'
 COQ_TARGETS = ['theories/NpciFacts.vo', 'theories/NpciMsgFacts.vo', 'theories/NpciSound.vo', 'theories/NpciBodyFacts.vo',
-               'theories/NpciRegistry.vo']
+               'theories/NpciRegistry.vo', 'theories/NpciReenc.vo']
 TABLE_OBLIGATIONS = ['NpciRegistry.registry_table_exact', 'NpciRegistry.registry_keys', 'NpciRegistry.registry_message_type',
                      'NpciRegistry.registry_ctor_message', 'NpciRegistry.registry_fields_arity', 'NpciRegistry.registry_nodup',
                      'NpciRegistry.registry_dispatch', 'NpciRegistry.registry_class']
@@ -21,7 +21,9 @@ RULE = ('cases: NPDU.encode over expecting-reply x priority 0..3 x DADR {none, s
         'entries and port-info length {0,1,2,255,256}, boundary nets/octets, decode of bodies of length <= 1 (32 per type quick, all thorough) and sampled 2..6 under '
         'each of the 12 types, npdu_types lookup for all 256 type codes, whole frames (message.encode + NPDU.encode, NPDU.decode + '
         'npdu_types dispatch); histories: for each of the 12 classes several decodes (and a default-constructed encode) in a row, and mixed '
-        'histories over all classes and header decodes, every object canonicalised only at the END of its history.  non-trivial = encode input with at least one optional field / parameter, or decode input of >= 3 octets; '
+        'histories over all classes and header decodes, every object canonicalised only at the END of its history; decode-then-re-encode of the same object for all 2^8 control octets '
+        '(reserved bits 6 and 4 included) x address / hop / message shapes: plain, router forward (deepcopy, hop count - 1, SADR filled in, '
+        'DADR stripped on the last leg), message object decoded through the registry and encoded again.  non-trivial = encode input with at least one optional field / parameter, or decode input of >= 3 octets; '
         'distinct by (operation, input).')
 TRUSTED = ['translator/gen_npdu.py: npdu.npdu_types, messageType, constructor message type, _debug_contents -> coq/gen/NpduRegistry.v (table obligations in NpciRegistry.v)',
            'model coq/theories/Npci.v written by hand after npdu.py:76-204,263-269,318-798 and comm.py PDUData; tie = in-kernel correspondence on every run',
@@ -356,6 +358,91 @@ def case_history(ops, kind='history'):
     d = [[o[0]] + [bytes(x).hex() if isinstance(x, (bytes, bytearray)) else (descM(x) if isinstance(x, tuple) else x) for x in o[1:]] for o in ops]
     return Case(kind, 'canon_history (run_history [%s])' % '; '.join(coq_op(o) for o in ops), exp,
                 key=('hist', repr(ops)), nontrivial=len(ops) >= 2, desc={'op': 'history', 'ops': d})
+
+
+def impl_reenc(octets):
+    from bacpypes.npdu import NPDU
+    from bacpypes.pdu import PDU
+
+    def f():
+        n = NPDU()
+        n.decode(PDU(bytes(octets)))
+        p = PDU()
+        n.encode(p)                       # the same object, as decoded
+        return p.pduData
+    return canon_call(f, list)
+
+
+def forward_like_router(n, add_sadr, strip):
+    """netservice.py:614-633,665 on a decoded NPDU: None = dropped (hop count exhausted)"""
+    from copy import deepcopy
+    if n.npduHopCount == 0:
+        return None
+    new = deepcopy(n)
+    new.pduSource = None
+    new.pduDestination = None
+    new.npduHopCount -= 1
+    if not n.npduSADR:
+        new.npduSADR = mk_addr(add_sadr)
+    else:
+        new.npduSADR = n.npduSADR
+    if strip:
+        new.npduDADR = None
+    return new
+
+
+def impl_reenc_fwd(add_sadr, strip, octets):
+    from bacpypes.npdu import NPDU
+    from bacpypes.pdu import PDU
+
+    def f():
+        n = NPDU()
+        n.decode(PDU(bytes(octets)))
+        new = forward_like_router(n, add_sadr, strip)
+        if new is None:
+            return None
+        p = PDU()
+        new.encode(p)
+        return p.pduData
+    return canon_call(f, lambda r: [0] if r is None else [1] + list(r))
+
+
+def impl_reenc_frame(octets):
+    from bacpypes.npdu import NPDU, npdu_types
+    from bacpypes.pdu import PDU
+
+    def f():
+        n = NPDU()
+        n.decode(PDU(bytes(octets)))
+        o = npdu_types[n.npduNetMessage]()
+        o.decode(n)
+        n2 = NPDU()
+        o.encode(n2)                      # the message object, as decoded
+        p = PDU()
+        n2.encode(p)
+        return p.pduData
+    return canon_call(f, list)
+
+
+def case_reenc(octets, kind='reenc'):
+    octets = bytes(octets)
+    return Case(kind, 'canon_res zs (reenc %s)' % nlist(octets), impl_reenc(octets), key=('reenc', octets),
+                nontrivial=len(octets) >= 3, desc={'op': 'reenc', 'octets': octets.hex()})
+
+
+def case_reenc_fwd(add_sadr, strip, octets, kind='reenc-fwd'):
+    octets = bytes(octets)
+    sa = coq_addr(add_sadr)
+    return Case(kind, 'canon_res canon_optbytes (reenc_fwd (mkFwd %s %s) %s)' % (sa, 'true' if strip else 'false', nlist(octets)),
+                impl_reenc_fwd(add_sadr, strip, octets), key=('reencfwd', repr(add_sadr), strip, octets), nontrivial=True,
+                desc={'op': 'reenc_fwd', 'octets': octets.hex(), 'strip': strip,
+                      'add_sadr': None if add_sadr is None else [add_sadr[0], add_sadr[1], bytes(add_sadr[2]).hex()]})
+
+
+def case_reenc_frame(octets, kind='reenc-frame'):
+    octets = bytes(octets)
+    return Case(kind, 'canon_res zs (reenc_frame %s)' % nlist(octets), impl_reenc_frame(octets), key=('reencframe', octets),
+                nontrivial=True, desc={'op': 'reenc_frame', 'octets': octets.hex()})
 
 
 # ---- cases
@@ -718,6 +805,25 @@ def histories(rng, big):
     return out
 
 
+def reenc_inputs(rng, c, per):
+    """for a control octet (reserved bits as they are): the fields its other bits call for, the frame with exactly
+    this control octet, and — when it is a network message — a frame carrying a real message body"""
+    d = rng.choice(dadr_shapes(rng)[1:3] + dadr_shapes(rng)[4:]) if c & 0x20 else None
+    s_ = rng.choice(sadr_shapes(rng)[1:3]) if c & 0x08 else None
+    t = rng.choice([rng.randrange(0x80), rng.randrange(0x80, 0x100)]) if c & 0x80 else None
+    H = (1, 1 if c & 4 else 0, c & 3, d, s_, rng.choice([0, 1, 1, 2, 254, 255, 255]) if d is not None else None, t, vendor_for(rng, t))
+    payload = rmac(rng, rng.randrange(0, 4))
+    x = bytearray(ref_layout(H)); x[1] = c
+    out = {'H': H, 'payload': payload, 'frame': bytes(x) + payload, 'msg': None}
+    if c & 0x80:
+        k = rng.choice(KINDS)
+        M, body = rng.choice(per[k])
+        Hm = H[:6] + (CODE_OF_KIND[k], None)
+        y = bytearray(ref_layout(Hm)); y[1] = c
+        out['msg'] = {'H': Hm, 'M': M, 'body': body, 'frame': bytes(y) + body}
+    return out
+
+
 def cases(rng, tier):
     big = tier == 'thorough'
     out = []
@@ -814,6 +920,21 @@ def cases(rng, tier):
             out.append(case_dec(fb, 'dec-mutated'))
     for ops in histories(rng, big):
         out.append(case_history(ops))
+    # decode, then encode the same object again: every control octet
+    per = class_bodies(rng)
+    for c in range(256):
+        for rep in range(3 if big else 1):
+            r = reenc_inputs(rng, c, per)
+            out.append(case_reenc(r['frame']))
+            if c & 0x20:
+                out.append(case_reenc_fwd(('rs', rnet(rng), rmac(rng, rng.choice([1, 6]))), bool((c + rep) & 1), r['frame']))
+            if r['msg']:
+                out.append(case_reenc_frame(r['msg']['frame']))
+    for _ in range(300 if big else 60):                       # and around mutated / refused frames
+        fb = mutate(rng, rng.choice(frames))
+        out.append(case_reenc(fb, 'reenc-mutated'))
+        if len(fb) < 2 or fb[1] & 0x80:
+            out.append(case_reenc_frame(fb, 'reenc-mutated'))
     return spread_heavy(out)
 
 
@@ -958,6 +1079,55 @@ def check_history(pairs, kind):
     return None
 
 
+def check_reencode(r, add_sadr, strip):
+    """a frame decoded and encoded again from the same object (plain; forwarded like a router; as a message object)
+    must be the canonical clause 6.2 frame of its fields: in particular reserved control bits 6 and 4 are clear"""
+    from bacpypes.npdu import NPDU, npdu_types
+    from bacpypes.pdu import PDU
+    H, payload, frame = r['H'], r['payload'], r['frame']
+    d = {'kind': 'reencode-not-canonical', 'octets': frame.hex()}
+    try:
+        n = NPDU()
+        n.decode(PDU(frame))
+        p = PDU()
+        n.encode(p)
+        got = bytes(p.pduData)
+        want = ref_layout(H) + payload
+        if got != want:
+            return dict(d, how='plain', got=got.hex(), want=want.hex())
+        if H[3] is not None and H[5] >= 1:
+            n = NPDU()
+            n.decode(PDU(frame))
+            new = forward_like_router(n, add_sadr, strip)
+            p = PDU()
+            new.encode(p)
+            got = bytes(p.pduData)
+            Hf = (H[0], H[1], H[2], None if strip else H[3], H[4] if H[4] is not None else add_sadr,
+                  None if strip else H[5] - 1, H[6], H[7])
+            want = ref_layout(Hf) + payload
+            if got != want:
+                return dict(d, how='forward', strip=strip, add_sadr=[add_sadr[0], add_sadr[1], bytes(add_sadr[2]).hex()],
+                            got=got.hex(), want=want.hex())
+        if r['msg']:
+            m = r['msg']
+            d = dict(d, octets=m['frame'].hex())
+            n = NPDU()
+            n.decode(PDU(m['frame']))
+            o = npdu_types[n.npduNetMessage]()
+            o.decode(n)
+            n2 = NPDU()
+            o.encode(n2)
+            p = PDU()
+            n2.encode(p)
+            got = bytes(p.pduData)
+            want = ref_layout(m['H']) + m['body']
+            if got != want:
+                return dict(d, how='message', got=got.hex(), want=want.hex())
+    except Exception as e:
+        return dict(d, kind='reencode-exception', exc=type(e).__name__)
+    return None
+
+
 FIXED_KINDS = ('icb', 'rej', 'irt', 'irta', 'est', 'disc', 'nni')
 
 
@@ -1068,6 +1238,13 @@ def direct(rng, tier, focus=()):
             n += 1
             add(check_history(pairs, k))
             nontriv.add(('hist', k, repr([m for m, _ in pairs])))
+    # 3d. decode then re-encode the same object: all control octets x shapes
+    for c in range(256):
+        for rep in range(12 if big else 4):
+            n += 1
+            r = reenc_inputs(rng, c, per)
+            add(check_reencode(r, ('rs', rnet(rng), rmac(rng, rng.choice([1, 6]))), bool(rep & 1)))
+            nontriv.add(('reenc', r['frame']))
     # 3c. message bodies cut short
     for k in KINDS:
         for M, body in per[k][:(40 if big else 12)]:
@@ -1126,11 +1303,18 @@ def replay(payload):
             if isinstance(b, dict):
                 print('broken:', b.get('what'))
     print('replay', f)
-    if 'octets' in f and 'header' not in f:
+    if 'octets' in f and 'header' not in f and not (f.get('kind', '').startswith('reencode') or f.get('op', '').startswith('reenc')):
         bs = bytes.fromhex(f['octets'])
         print('reference reading :', ref_parse(bs)[:2])
         print('implementation    : NPDU.decode ->', impl_dec_npdu(bs))
         print('direct predicate  :', check_octets(bs))
+    elif f.get('kind', '').startswith('reencode') or f.get('op', '').startswith('reenc'):
+        bs = bytes.fromhex(f['octets'])
+        print('implementation    : decode + re-encode ->', impl_reenc(bs))
+        if len(bs) >= 2:
+            print('canonical control : %02x (received %02x)' % (bs[1] & 0xAF, bs[1]))
+        if f.get('how') == 'message' or f.get('op') == 'reenc_frame':
+            print('implementation    : message decode + encode ->', impl_reenc_frame(bs))
     elif 'cut' in f and 'body' in f:
         print('direct predicate  :', check_body_prefix(_undescM(f['msg']), bytes.fromhex(f['body']), f['cut']))
     elif 'history' in f and 'bodies' in f:
